@@ -33,6 +33,7 @@ def run(prog, rep):
                       'executed over the three result codes of the transcoder: every code other than Success ends in the exception - a truncated '
                       'last sequence (UnexpectedEnd) is not mistaken for success', floor=6)
     check_failure_reported(prog, rep, 'R12.7')
+    check_writer_result(prog, rep, 'R12.8')
 
 
 def check_policy_forwarding(prog, rep, rule):
@@ -177,3 +178,87 @@ def check_failure_reported(prog, rep, rule):
         seen.add(key)
     if n < 2:
         raise AnalysisBroken('%s: fewer than two reporting callers of the transcoders found (%d)' % (rule, n))
+
+
+def check_writer_result(prog, rep, rule):
+    """CEncodedStreamWriter::Write hands the transcoder's verdict on: when Encode reports a failure (under either policy a truncated last
+    sequence is one) nothing is written and that code is returned; the text reaches the stream, and Success is returned, only after a
+    successful Encode. The closure is interpreted once per error code with the policy left open."""
+    from bsv.dtab import TOP, Interp, Model, Struct, Sym
+    NS = 'BitSerializer::Convert::Utf::'
+    codes = (prog.enums.get(NS + 'UtfEncodingErrorCode') or {}).get('items')
+    if not codes:
+        raise AnalysisBroken('anchor vanished: enum UtfEncodingErrorCode')
+    rep.rule(rule, 'CEncodedStreamWriter::Write: the text is written and Success returned only when Encode succeeded; when it reports a failure '
+                   'nothing is written and its error code is returned (for every policy)', floor=8)
+
+    class M(Model):
+        def __init__(self, code):
+            self.code = code
+
+        def initial_store(self, it, key):
+            return TOP
+
+        def construct(self, it, fr, n, depth):
+            vals = [it.ev(fr, a, depth) for a in n.get('c', ())]
+            return vals[0] if len(vals) == 1 else TOP
+
+        def primitive(self, it, fr, n, callee, depth):
+            obj, args = it.call_args(fr, n)
+            q = callee.get('q', '')
+            if q.startswith(NS) and callee['n'] == 'Encode':
+                for a in args:
+                    it.ev(fr, a, depth)
+                it.act('TRANSCODE')
+                st = Struct()
+                st.fields.update({'ErrorCode': self.code, 'Iterator': Sym('IT'), 'InvalidSequencesCount': TOP})
+                return st
+            if callee['n'] == 'operator bool' and obj is not None:
+                v = it.ev(fr, obj, depth)
+                if isinstance(v, Struct) and isinstance(v.fields.get('ErrorCode'), int):
+                    return 1 if v.fields['ErrorCode'] == codes['Success'] else 0
+            if callee['n'] in ('write', 'put', 'operator<<') and 'basic_ostream' in q:
+                it.act('WRITE')
+            for a in args:
+                it.ev(fr, a, depth)
+            if obj is not None:
+                it.ev(fr, obj, depth)
+            return TOP
+    n = 0
+    seen = {}
+    for f in sorted(prog.funcs.values(), key=lambda g: g.id):
+        if f.body is None or 'conversion_detail/convert_utf.h' not in f.relfile or 'CEncodedStreamWriter' not in f.id:
+            continue
+        if not any(c['k'] in ('CallExpr', 'CXXMemberCallExpr') and (f.callee(c) or {}).get('n') == 'Encode' for c in f.walk()):
+            continue
+        n += 1
+        rep.touch(f)
+        bad = None
+        for cname in ('Success', 'UnexpectedEnd', 'InvalidSequence'):
+            it = Interp(prog, M(codes[cname]), max_depth=0, max_paths=200)
+
+            def init(it_, fr):
+                for p in f.params:
+                    fr.env[p['d']] = TOP
+            for p in it.run(f, init):
+                if not any(a[0] == 'TRANSCODE' for a in p.actions):
+                    continue
+                wrote = any(a[0] == 'WRITE' for a in p.actions)
+                if p.outcome[0] != 'RET':
+                    continue
+                rv = p.outcome[1]
+                if cname == 'Success' and not (wrote and rv == codes['Success']):
+                    bad = 'after a successful Encode the text is %s and %s is returned' % ('written' if wrote else 'not written', rv)
+                if cname != 'Success' and (wrote or rv != codes[cname]):
+                    bad = 'when Encode reports %s the buffer is %s and %s is returned: a %s is taken for a completed write' % (
+                        cname, 'written to the stream' if wrote else 'not written', 'Success' if rv == codes['Success'] else rv,
+                        'truncated last sequence' if cname == 'UnexpectedEnd' else 'refused ill-formed sequence')
+        key = (f.relfile, f.body['l'])
+        if bad and seen.get(key) != 'bad':
+            seen[key] = 'bad'
+            rep.finding(rule, 'CEncodedStreamWriter::Write|%s' % bad.split(' the ')[0][:50], f.loc(), 'CEncodedStreamWriter::Write: %s' % bad,
+                        {'instantiation': f.id[:200]}, func=f.id)
+        elif not bad:
+            rep.ok(rule, 'Write|%s' % f.id[-120:])
+    if n < 4:
+        raise AnalysisBroken('%s: fewer than four transcoding instantiations of CEncodedStreamWriter::Write found (%d)' % (rule, n))
